@@ -99,6 +99,21 @@ def run_workers(prop, tier, seed, nshards, outdir, timeout, jobs):
             del running[sh]
             if rc == 0 and os.path.exists(out):
                 results.append((sh, "ok", out))
+                if os.environ.get("VERIF_FAILFAST"):
+                    try:
+                        ff = json.load(open(out, encoding="utf8")).get("info", {}).get("failfast")
+                    except (OSError, ValueError):
+                        ff = False
+                    if ff:
+                        # diagnostic mode: a shard stopped at its first unlisted violation - the verdict is decided, stop the rest
+                        for sh2, (p2, _t, out2, log2) in list(running.items()):
+                            p2.kill()
+                            p2.wait()
+                            log2.close()
+                            results.append((sh2, "stopped(failfast)", out2))
+                        for sh2 in pending:
+                            results.append((sh2, "stopped(failfast)", os.path.join(outdir, f"shard{sh2}.json")))
+                        return sorted(results)
             elif rc not in (3, 4, 5) and sh not in retried:
                 # the worker died without a verdict of its own (signal, interpreter fault): run the shard once more
                 retried.add(sh)
